@@ -31,6 +31,8 @@ def run_one(pid, tier, repo, seed):
         mod.check(ctx, rep)
         if tier == "thorough" and hasattr(mod, "thorough"):
             mod.thorough(ctx, rep, seed)
+        if tier == "thorough" and os.environ.get("VERIF_NOEVIDENCE") != "1":
+            selftest(pid, repo, rep, seed)
         return finish(rep, tier, seed, t0)
     except AnalysisError as e:
         print("ANALYSIS-ERROR property=%s %s" % (pid, e))
@@ -39,6 +41,67 @@ def run_one(pid, tier, repo, seed):
         traceback.print_exc()
         print("ANALYSIS-ERROR property=%s internal error: %s: %s" % (pid, type(e).__name__, e))
         return 2
+
+
+def _variant(args):
+    """apply one stored diff to a scratch copy of the analysed tree and run one property's quick check on it"""
+    import shutil
+    import subprocess
+    import tempfile
+    pid, repo, diff = args
+    t = tempfile.mkdtemp(prefix="verif_selftest_")
+    try:
+        subprocess.run(["rsync", "-a", "--exclude", ".git", "--exclude", "__pycache__", "--exclude", "tests", "--exclude", "docs", repo.rstrip("/") + "/", t + "/"], check=True)
+        r = subprocess.run(["patch", "-p1", "-s", "-f", "-i", diff], cwd=t, capture_output=True, text=True)
+        if r.returncode != 0:
+            return diff, "inapplicable", []
+        env = dict(os.environ, VERIF_REPO=t, VERIF_NOEVIDENCE="1", VERIF_TIER="quick")
+        env.pop("VERIF_ONLY", None)
+        r = subprocess.run([sys.executable, os.path.join(HERE, "check.py"), pid, "--tier", "quick"], env=env, capture_output=True, text=True)
+        lines = r.stdout.splitlines()
+        msgs = [lines[i - 1][:240] for i, l in enumerate(lines) if l.startswith("VIOLATION") and i > 0] + [l[:240] for l in lines if l.startswith("ANALYSIS-ERROR")]
+        return diff, {0: "silent", 1: "violation", 2: "analysis-error"}.get(r.returncode, "rc%d" % r.returncode), msgs
+    finally:
+        shutil.rmtree(t, ignore_errors=True)
+
+
+def selftest(pid, repo, rep, seed):
+    """thorough tier: the checker is tested both ways on scratch copies of the tree under analysis (removed again):
+    every stored breaking change for this property (seeded/<pid>-*/patch.diff, selftest/breaking/<pid>-*.diff) must make this check report a
+    violation, every stored behaviour-preserving refactoring (selftest/refactor/*.diff) must leave it silent.
+    The verdict on the analysed tree never depends on this; outcomes are reported as notes and in the evidence.
+    Skipped when the tree itself has violations (a variant of a broken tree proves nothing)."""
+    import glob
+    from concurrent.futures import ThreadPoolExecutor
+    from sa.core import load_known
+    known = [(k.get("rule"), k.get("construct")) for k in load_known().get("known", []) if k.get("property") == pid]
+    if any((not o.ok) and (o.rule, o.key) not in known for o in rep.obs):
+        rep.note("self-test skipped: the analysed tree has violations of its own")
+        return
+    breaking = sorted(glob.glob(os.path.join(HERE, "seeded", pid + "-*", "patch.diff"))) + sorted(glob.glob(os.path.join(HERE, "selftest", "breaking", pid + "-*.diff")))
+    preserving = sorted(glob.glob(os.path.join(HERE, "selftest", "refactor", "*.diff")))
+    jobs = [(pid, repo, d) for d in breaking + preserving]
+    res = {}
+    with ThreadPoolExecutor(int(os.environ.get("VERIF_JOBS", "16"))) as ex:
+        for diff, outcome, msgs in ex.map(_variant, jobs):
+            res[diff] = (outcome, msgs)
+    fired = [d for d in breaking if res[d][0] == "violation"]
+    missed = [d for d in breaking if res[d][0] in ("silent",)]
+    quiet = [d for d in preserving if res[d][0] == "silent"]
+    loud = [d for d in preserving if res[d][0] in ("violation", "analysis-error")]
+    skipped = [d for d in breaking + preserving if res[d][0] == "inapplicable"]
+    rel = lambda d: os.path.relpath(d, HERE)  # noqa: E731
+    rep.selftest = {
+        "breaking_variants": len(breaking), "breaking_detected": len(fired), "breaking_missed": [rel(d) for d in missed],
+        "preserving_variants": len(preserving), "preserving_silent": len(quiet), "preserving_alarmed": [{"diff": rel(d), "messages": res[d][1][:3]} for d in loud],
+        "inapplicable_on_this_tree": [rel(d) for d in skipped],
+        "samples": [{"variant": rel(d), "outcome": res[d][0], "first_message": (res[d][1] or [""])[0]} for d in (breaking + preserving[:4])],
+    }
+    rep.note("self-test: %d/%d stored breaking changes detected, %d/%d behaviour-preserving refactorings silent, %d not applicable to this tree" % (len(fired), len(breaking), len(quiet), len(preserving), len(skipped)))
+    for d in missed:
+        print("SELFTEST-WARNING property=%s stored breaking change %s is not detected on this tree" % (pid, rel(d)))
+    for d in loud:
+        print("SELFTEST-WARNING property=%s behaviour-preserving refactoring %s raises: %s" % (pid, rel(d), (res[d][1] or ["?"])[0]))
 
 
 def main(argv):
